@@ -7,9 +7,12 @@
 
     NOT proved here (exercised by the exact differential of harness/props/c07.py only):
     - that the derivative formula of [c07_ders_formula] is d/dx of the basis (classical identity);
-    - cu_find_span (int() truncation, span == ncells branch) returns the span/offset of
-      nu_find_span on the uniform extension knots, i.e. equality of the two PATHS on [xmin,xmax]
-      (the closed forms themselves are proved equal: c07_cu_basis_eq_general, c07_cu_ders_eq_general);
+    - equality of the two PATHS as functions of x is proved in the form "both return the B-spline
+      series of the closed domain on the uniform extension knots" for values in 1-D
+      (c07_eval_1d_closed, c07_cu_eval_1d_closed, under the floor law [sp_trunc_ok] of int(), which is
+      not proved for the Qc instance); for derivatives and in 2-D only the closed forms are proved
+      equal (c07_cu_basis_eq_general, c07_cu_ders_eq_general) and the span/offset relation
+      (c07_cu_find_span_spec);
     - periodic splines: equal values and slopes at both ends of the period;
     - the dispatch of Spline1D / Spline2D / BSplines (numpy level) and floating-point rounding. *)
 From Coq Require Import List Arith Lia ZArith Bool QArith Qcanon.
@@ -512,6 +515,53 @@ Theorem c07_cu_vector2d_eq_scalar_pairs :
   SpOk (map (fun p : F * F => f (fst p) (snd p)) (combine xs ys)).
 Proof. exact sp_cu_eval_2d_vector_eq_zip. Qed.
 Print Assumptions c07_cu_vector2d_eq_scalar_pairs.
+
+(** cu_find_span on [xmin, xmax] (xmax = xmin + ncells*dx, ncells >= 1, dx > 0), given the floor law of int()
+    [sp_trunc_ok]: the span is in [3, ncells+2], x = t_span + offset*dx on the uniform extension knots, 0 <= offset <= 1,
+    and offset = 1 only in the span == ncells branch (x = xmax, span ncells+2) *)
+Theorem c07_cu_find_span_spec :
+  forall (F : Type) (K : sp_ops F),
+  sp_laws K ->
+  forall (xmin xmax dx x : F) (n : nat),
+  sp_trunc_ok F K ->
+  (1 <= n)%nat ->
+  sp_lt K (sp0 K) dx ->
+  xmax = spadd K xmin (spmul K (sp_ofnat F K n) dx) ->
+  sp_le K xmin x ->
+  sp_le K x xmax ->
+  exists (s : nat) (o : F),
+    sp_cu_find_span F K xmin xmax dx x (Z.of_nat n) = SpOk (Z.of_nat s, o) /\
+    (3 <= s <= n + 2)%nat /\
+    x = spadd K (tU F (sp0 K) (sp1 K) (spadd K) (spmul K) (spsub K) xmin dx s) (spmul K o dx) /\
+    sp_le K (sp0 K) o /\ sp_le K o (sp1 K) /\ (o = sp1 K -> s = (n + 2)%nat).
+Proof. exact sp_cu_find_span_spec. Qed.
+Print Assumptions c07_cu_find_span_spec.
+
+(** hence the uniform-cubic 1-D entry point returns, everywhere on [xmin, xmax] (x = xmax included), the B-spline
+    series of the closed domain on the uniform extension knot vector - the function that the general path evaluates
+    on that knot vector (c07_eval_1d_closed) *)
+Theorem c07_cu_eval_1d_closed :
+  forall (F : Type) (K : sp_ops F),
+  sp_laws K ->
+  forall (xmin xmax dx fn : F) (rest : list F) (n : nat) (coeffs : list F) (x : F),
+  sp_trunc_ok F K ->
+  (1 <= n)%nat ->
+  sp_lt K (sp0 K) dx ->
+  xmax = spadd K xmin (spmul K (sp_ofnat F K n) dx) ->
+  sptrunc K fn = Z.of_nat n ->
+  sp_le K xmin x ->
+  sp_le K x xmax ->
+  length coeffs = (n + 3)%nat ->
+  exists s : nat,
+    (3 <= s <= n + 2)%nat /\
+    sp_cu_eval_1d_scalar F K x (xmin :: xmax :: dx :: fn :: rest) 3 coeffs 0 =
+    SpOk
+      (sumr F (sp0 K) (spadd K) 0 4
+         (fun j : nat =>
+          spmul K (nth (s - 3 + j) coeffs (sp0 K))
+            (sp_Nc F K (sp_uniform_knots F K xmin dx n) (n + 3) x 3 (s - 3 + j)))).
+Proof. exact sp_cu_eval_1d_closed. Qed.
+Print Assumptions c07_cu_eval_1d_closed.
 
 (** the laws are satisfiable: the executed instance (canonical rationals) satisfies them *)
 Theorem c07_qc_laws : sp_laws spq_ops.
